@@ -105,7 +105,7 @@ func c03NewFilter() (f *filtering.DNSFilter, dir string, err error) {
 
 // c03Prepare builds a Server whose access lists come from ServerConfig, as at
 // program start.
-func c03Prepare(l *c03Lists) (u *c03Unstarted, err error) {
+func c03Prepare(l *c03Lists, strictSNI bool) (u *c03Unstarted, err error) {
 	f, dir, err := c03NewFilter()
 	if err != nil {
 		return nil, err
@@ -127,7 +127,7 @@ func c03Prepare(l *c03Lists) (u *c03Unstarted, err error) {
 	sconf := &ServerConfig{
 		UDPListenAddrs: []*net.UDPAddr{{IP: lo, Port: 5399}},
 		TCPListenAddrs: []*net.TCPAddr{{IP: lo, Port: 5399}},
-		TLSConf:        &TLSConfig{ServerName: c03SrvName},
+		TLSConf:        &TLSConfig{ServerName: c03SrvName, StrictSNICheck: strictSNI},
 		Config: Config{
 			UpstreamMode:      UpstreamModeLoadBalance,
 			EDNSClientSubnet:  &EDNSClientSubnet{Enabled: false},
@@ -341,6 +341,54 @@ func c03GenID(rng *rand.Rand, items []c03Item) string {
 	}
 }
 
+// c03TwoIDs turns a DoH case into one that carries two ClientIDs: c.ID in the
+// URL path and c.SNIID in the TLS server name (or, for plain-HTTP DoH, the Host
+// header).
+func c03TwoIDs(rng *rand.Rand, c *c03Case, items []c03Item) {
+	var listed []string
+	isListed := map[string]bool{}
+	for _, it := range items {
+		if it.kind == 'i' && it.id == strings.ToLower(it.id) {
+			listed = append(listed, it.id)
+			isListed[it.id] = true
+		}
+	}
+	var unlisted []string
+	for _, id := range append([]string{"other", "zz-9"}, c03IDPool...) {
+		if !isListed[id] {
+			unlisted = append(unlisted, id)
+		}
+	}
+	pick := func(from []string) string { return from[rng.Intn(len(from))] }
+	pathID := strings.ToLower(c.ID)
+	if pathID == "" {
+		pathID = pick(unlisted)
+	}
+	c.ID = pathID
+	c.Carrier = []string{"path+sni", "path+sni", "path+sni", "path+host"}[rng.Intn(4)]
+	switch k := rng.Intn(10); {
+	case k < 2:
+		c.TwoIDs, c.SNIID = "equal", pathID
+	case k < 8:
+		c.TwoIDs = "different"
+		switch {
+		case len(listed) > 0 && rng.Intn(3) != 0 && rng.Intn(2) == 0:
+			// Path: listed, server name: not.
+			c.ID, c.SNIID = pick(listed), pick(unlisted)
+		case len(listed) > 0 && rng.Intn(3) != 0:
+			c.ID, c.SNIID = pick(unlisted), pick(listed)
+		default:
+			for c.SNIID = pick(c03IDPool); c.SNIID == c.ID; c.SNIID = pick(c03IDPool) {
+			}
+		}
+	case k == 8:
+		c.TwoIDs, c.SNIID = "sni-invalid", []string{"bad_id", "-lead", "trail-"}[rng.Intn(3)]
+	default:
+		c.TwoIDs, c.SNIID = "path-invalid", pick(append(listed, unlisted...))
+		c.ID = []string{"bad_id", "-lead", "trail-"}[rng.Intn(3)]
+	}
+}
+
 var c03Protos = []proxy.Proto{proxy.ProtoUDP, proxy.ProtoTCP, proxy.ProtoTLS, proxy.ProtoHTTPS, proxy.ProtoQUIC, proxy.ProtoDNSCrypt}
 
 // c03Case is one crafted request.
@@ -357,6 +405,15 @@ type c03Case struct {
 	// "tcp" (a *net.TCPAddr: dnsproxy uses one protocol value for DNSCrypt
 	// over UDP and over TCP).
 	DCPeer string `json:"dnscrypt_response_writer,omitempty"`
+	// SNIID is, for DoH requests that carry TWO ClientIDs (carriers
+	// "path+sni" and "path+host"), the one in the TLS server name / Host
+	// header; ID is then the one in the URL path, which the product documents
+	// to take precedence.  TwoIDs names the relation: equal, different,
+	// sni-invalid, path-invalid.
+	SNIID  string `json:"client_id_in_server_name,omitempty"`
+	TwoIDs string `json:"two_client_ids,omitempty"`
+	// Strict tells whether the server runs with strict_sni_check.
+	Strict bool `json:"strict_sni_check"`
 
 	addr  netip.Addr
 	qtype uint16
@@ -424,6 +481,13 @@ func c03Context(c *c03Case, reqID uint64, msgID uint16) *proxy.DNSContext {
 		case "sni":
 			r.TLS = &tls.ConnectionState{ServerName: srvName}
 			r.Host = srvName
+		case "path+sni":
+			r.URL.Path = "/dns-query/" + c.ID
+			r.TLS = &tls.ConnectionState{ServerName: c.SNIID + "." + c03SrvName}
+			r.Host = c.SNIID + "." + c03SrvName
+		case "path+host":
+			r.URL.Path = "/dns-query/" + c.ID
+			r.Host = c.SNIID + "." + c03SrvName + ":8443"
 		default: // "host": plain HTTP behind a TLS-terminating proxy
 			r.Host = srvName + ":8443"
 		}
@@ -517,11 +581,12 @@ func TestVerifC03Decision(t *testing.T) {
 	}
 	for w := 0; w < 8; w++ {
 		wg.Add(1)
-		go func() {
+		go func(w int) {
 			defer wg.Done()
 			// A long-lived server per worker for configurations set through
 			// the API handler.
 			var api *c03Unstarted
+			apiStrict := w%2 == 1
 			defer func() {
 				if api != nil {
 					api.close()
@@ -533,9 +598,10 @@ func TestVerifC03Decision(t *testing.T) {
 				l := c03GenLists(rng, viaAPI)
 				var u *c03Unstarted
 				var err error
+				strict := apiStrict
 				if viaAPI {
 					if api == nil {
-						if api, err = c03Prepare(&c03Lists{}); err != nil {
+						if api, err = c03Prepare(&c03Lists{}, apiStrict); err != nil {
 							rep.Inconcl("cannot prepare a server: " + err.Error())
 
 							continue
@@ -549,19 +615,20 @@ func TestVerifC03Decision(t *testing.T) {
 					u = api
 					rep.Class("config_via_api_handler")
 				} else {
-					if u, err = c03Prepare(l); err != nil {
+					strict = rng.Intn(2) == 0
+					if u, err = c03Prepare(l, strict); err != nil {
 						rep.Inconcl("Prepare rejected a generated configuration: " + err.Error() + " " + verifkit.JSON(l))
 
 						continue
 					}
 					rep.Class("config_via_prepare")
 				}
-				c03RunConf(rep, rng, j.idx, u.S, l, perConf, nextID)
+				c03RunConf(rep, rng, j.idx, u.S, l, strict, perConf, nextID)
 				if !viaAPI {
 					u.close()
 				}
 			}
-		}()
+		}(w)
 	}
 	for i := 0; i < nConf; i++ {
 		jobs <- job{idx: i, seed: master.Int63()}
@@ -575,7 +642,9 @@ func TestVerifC03Decision(t *testing.T) {
 	}{{"want_refused_client", 300}, {"want_refused_name", 100}, {"want_admitted", 300},
 		{"allow_mode_admitted_by_clientid_only", 10}, {"allow_mode_admitted_by_address_only", 10},
 		{"allow_mode_disallowed_entry_ignored", 10}, {"dnscrypt_writer_nil:refused", 20},
-		{"dnscrypt_writer_udp:refused", 20}, {"dnscrypt_writer_tcp:refused", 20}} {
+		{"dnscrypt_writer_udp:refused", 20}, {"dnscrypt_writer_tcp:refused", 20},
+		{"doh_two_clientids_decision_depends_on_which_id:strict", 30}, {"doh_two_clientids_decision_depends_on_which_id:lax", 30},
+		{"doh_two_clientids:equal:strict", 10}, {"doh_two_clientids:sni-invalid:strict", 10}} {
 		if n := rep.ClassCount(need.class); n < need.min {
 			rep.Inconcl(fmt.Sprintf("too few cases of class %s: %d", need.class, n))
 		}
@@ -592,7 +661,7 @@ func TestVerifC03Decision(t *testing.T) {
 	}
 }
 
-func c03RunConf(rep *verifkit.Report, rng *rand.Rand, idx int, s *Server, l *c03Lists, perConf int, nextID func() uint64) {
+func c03RunConf(rep *verifkit.Report, rng *rand.Rand, idx int, s *Server, l *c03Lists, strict bool, perConf int, nextID func() uint64) {
 	allow, ok1 := c03ParseItems(l.Allow)
 	deny, ok2 := c03ParseItems(l.Deny)
 	if !ok1 || !ok2 {
@@ -653,7 +722,11 @@ func c03RunConf(rep *verifkit.Report, rng *rand.Rand, idx int, s *Server, l *c03
 			if c.ID == "" {
 				c.Carrier = ""
 			}
+			if proto == proxy.ProtoHTTPS && rng.Intn(5) < 2 {
+				c03TwoIDs(rng, c, both)
+			}
 		}
+		c.Strict = strict
 		c.Name = c03GenName(rng, effHosts)
 		if rng.Intn(25) == 0 && c.Name != "." {
 			// Not a wire form, but HandleBefore is an exported entry point.
@@ -702,6 +775,43 @@ func c03RunConf(rep *verifkit.Report, rng *rand.Rand, idx int, s *Server, l *c03
 		}
 		if c.DCPeer != "" {
 			rep.Class("dnscrypt_writer_" + c.DCPeer)
+		}
+
+		if c.TwoIDs != "" {
+			sfx := map[bool]string{true: "strict", false: "lax"}[c.Strict]
+			rep.Class("doh_two_clientids:" + c.TwoIDs + ":" + sfx)
+			servfail := o.Kind == "respond" && o.resp != nil && o.resp.Rcode == dns.RcodeServerFailure
+			if strings.HasSuffix(c.TwoIDs, "-invalid") && servfail {
+				// Refusing to extract a ClientID is C16's matter; such a
+				// request is not served either.
+				rep.Event("doh_two_clientids_invalid_id_answered_SERVFAIL:" + sfx)
+
+				continue
+			}
+			if c.TwoIDs == "path-invalid" {
+				rep.Unspec("DoH path carries an invalid ClientID and the request is not rejected")
+
+				continue
+			}
+			// The ClientID in the path is the effective one (doc comment of
+			// clientIDFromDNSContext: "It takes precedence over the one from
+			// the server name").
+			cvS := c03DecideClient(allow, deny, c.addr, c.SNIID)
+			if c.TwoIDs == "different" && !nameBlocked && cv.Specified && cvS.Specified && cv.Excluded != cvS.Excluded {
+				rep.Class("doh_two_clientids_decision_depends_on_which_id:" + sfx)
+				if (o.Kind != "nil") == cvS.Excluded {
+					mode := "block-mode"
+					if cv.AllowMode {
+						mode = "allow-mode"
+					}
+					w := witness(fmt.Sprintf("decision on the ClientID in the path (%q): excluded=%v", c.ID, cv.Excluded))
+					w["model_client_if_server_name_id_were_used"] = cvS
+					rep.Violate("decision:doh-two-clientids:"+mode+":decided-on-server-name-id",
+						fmt.Sprintf("DoH request with ClientID %q in the path and %q in the server name (strict_sni_check=%v) is judged by the server-name ClientID", c.ID, c.SNIID, c.Strict), w)
+
+					continue
+				}
+			}
 		}
 
 		if !cv.Specified {
